@@ -17,6 +17,14 @@ _Val.declare("VRef", ("ref", I))
 Val = _Val.create()
 
 
+_TUPLE_SORTS = {}  # tag -> (sort, constructor, [accessors])
+
+
+def tuple_parts(ty):
+    ty.sort()
+    return _TUPLE_SORTS[ty.tag()]
+
+
 class Ty:
     """int | bool | str | real | none | val | dict(K,V) | list(T) | tuple(T..) | obj(name) | set(T) | fun"""
 
@@ -55,6 +63,11 @@ class Ty:
             return I
         if k == "set":
             return z3.ArraySort(self.args[0].sort(), B)
+        if k == "tuple":  # tuples stored in lists: a z3 tuple sort over the component sorts
+            key = self.tag()
+            if key not in _TUPLE_SORTS:
+                _TUPLE_SORTS[key] = z3.TupleSort("T_" + key, [a.sort() for a in self.args])
+            return _TUPLE_SORTS[key][0]
         if k == "map":  # pure (value) map: only for spec functions
             raise TypeError("map has two sorts")
         raise TypeError("no sort for %r" % self)
@@ -142,6 +155,19 @@ def mk_none():
 
 def mk_tuple(items):
     return SV(Tuple(*[i.ty for i in items]), None, items=list(items))
+
+
+def tuple_term(sv):
+    """z3 term of a tuple value whose components are plain scalars / references (for storing it in a list)"""
+    if sv.t is not None:
+        return sv.t
+    _, cons, _ = tuple_parts(sv.ty)
+    return cons(*[i.t for i in sv.items])
+
+
+def tuple_from_term(term, ty):
+    _, _, accs = tuple_parts(ty)
+    return SV(ty, term, items=[SV(t, a(term)) for t, a in zip(ty.args, accs)])
 
 
 def box(sv):
